@@ -134,6 +134,8 @@ def run(ctx):
         rec = []
         got = apply(ctx, op, s0, flags, site, rec)
         orders.add(tuple(rec))
+        if len(rec) > 1:
+            ctx.measure("effect_group_application_orders (per input)", (W.dom_text_plain, aname, tuple(args), tuple(rec)))
         compare(ctx, got, want, site, f"flags={flags}", W, S, call)
         ctx.log("result", k, flags, "ok")
         if k == K - 1:
